@@ -113,6 +113,8 @@ async fn issue(st: Arc<State>, call: Call) -> Vec<RespValue> {
             argv.extend(args);
             vec![exec(&st, argv).await]
         }
+        // a sloppy script that forgets `local`: its global must not outlive the call
+        ("gscript", "get") => vec![exec(&st, vec![b("EVAL"), b("if redis.call('EXISTS', KEYS[1]) == 1 then val = redis.call('GET', KEYS[1]) end return val"), b("1"), b(&s0.key)]).await],
         ("script", "get") => vec![exec(&st, vec![b("EVAL"), b("return redis.call('GET', KEYS[1])"), b("1"), b(&s0.key)]).await],
         ("script", "set") => vec![exec(&st, vec![b("EVAL"), b("return redis.call('SET', KEYS[1], ARGV[1])"), b("1"), b(&s0.key), b(&s0.arg)]).await],
         // read-modify-write in one script: must be atomic
@@ -192,7 +194,7 @@ fn scripted_one(rt: &tokio::runtime::Runtime, scn: &[Value], serial: &mut u64, o
                         "fast" => "fast",
                         "pooled" => "pooled",
                         "batch" => "batch",
-                        "script" => "script",
+                        "script" => if kind == "get" && *serial % 2 == 0 { "gscript" } else { "script" },
                         _ => "generic",
                     };
                     let call = Call { path, subs: vec![Sub { key: kname(ev["k"].as_str().unwrap_or("a")), kind, arg: format!("v{}", *serial), argn: 0, num: false }] };
@@ -302,7 +304,7 @@ fn random_call(rng: &mut impl Rng, regs: &[String], ctrs: &[String], serial: &At
             Call { path, subs: vec![Sub { key, kind: "set", arg: fresh(()), argn: 0, num: false }] }
         }
         7..=13 => {
-            let path = ["generic", "fast", "pooled", "batch", "script", "sha"][rng.gen_range(0..6)];
+            let path = ["generic", "fast", "pooled", "batch", "script", "sha", "gscript"][rng.gen_range(0..7)];
             Call { path, subs: vec![Sub { key, kind: "get", arg: String::new(), argn: 0, num: false }] }
         }
         14..=15 => Call { path: if rng.gen_bool(0.5) { "script" } else { "generic" }, subs: vec![Sub { key, kind: "getset", arg: fresh(()), argn: 0, num: false }] },
